@@ -422,15 +422,7 @@ spec fn newest_is(a: Archive, cur: Option<BandId>) -> bool {
     }
 }
 
-impl Archive {
-    // ASSUMED contract of `Archive::band_is_closed` (src/archive.rs: is_file("<band>/BANDTAIL"))
-    #[verifier::external_body]
-    async fn band_is_closed(&self, band_id: BandId) -> (r: Result<bool>)
-        ensures
-            r matches Ok(c) ==> c == self.closed(band_id),
-            r matches Err(e) ==> e is Other,
-    { unimplemented!() }
-}
+// `Archive::band_is_closed`: the shim of prelude/select_types.rs (included above) is used; LINK select.band_is_closed.
 
 // ------------------------------------------------------------------------------------------------
 // 4.4 permissions.  `*_allowed` / `lock_checked` are uninterpreted and can only be OBTAINED from the
